@@ -5,6 +5,21 @@ import json, os, subprocess
 ROOT = os.path.dirname(os.path.dirname(os.path.abspath(__file__)))
 
 CLAIMED = {
+ "C19": dict(
+   text="Theorems in Coq: C19_oob_roundtrip — a byte-level model of the control data (cmsghdr, 8-byte alignment, SCM_RIGHTS / SCM_CREDENTIALS as "
+        "syscall.UnixRights/UnixCredentials produce them; ParseSocketControlMessage + parseMsg) round-trips for EVERY descriptor list and credential "
+        "(same descriptors, same order); C19_whole_or_error and C19_rejected_not_leaked over a model of SEQPACKET delivery with payload / control "
+        "truncation (a receive returns the sent message or an error, and every descriptor the kernel installed for a rejected message is closed; "
+        "the leak of the pinned tree is kept as C19_rejected_leaked_on_pinned and was repaired by a fix: commit); C19_framed_delivery (while no "
+        "send is rejected the receiver decodes exactly the sent values, in order), C19_oversize_rejected_by_sender, C19_oversize_poisons_stream.  "
+        "Tie on every run: Go's encoders and the library's parser on 150 random attachments (bit-exact bytes), 120 raw histories on a real socket "
+        "pair (payload 0..65536 vs buffers 1..70000, 0..253 descriptors, credentials, refused sends: identities in order, close-on-exec, Ucred, "
+        "descriptor count), 80 typed histories through the protocol's gob-framed socket (first use of each type, oversize, refused sends).",
+   note="Three behaviours are listed as known findings (empty payloads at the raw layer; a rejected first-use send poisons the gob stream).  "
+        "Trusted: Coq kernel + vm_compute; kernel rules SK1-SK3; encoding/gob abstracted to 'the descriptor of a type travels with its first "
+        "value' (validated by the framed histories); SCM_MAX_FD = 253.",
+   technique="Coq proof (byte-level codec round trip; delivery/framing models by case analysis and induction over histories) + in-Coq differential evaluation on real sockets",
+   design="§5 C19"),
  "C15": dict(
    text="Theorems in Coq: C15_getstring_total / C15_getstring_spec — for EVERY tracee memory (any pages unreadable, any bytes) and every address, the "
         "model of Context.GetString (page-wise vmReadStr with Go's slice-bounds rule as a panic outcome, the PEEKDATA fallback, clen) never panics "
